@@ -504,6 +504,7 @@ def main():
             'trusted_base': ['Lean 4.33 kernel', 'axioms: ' + ', '.join(sorted({a for ax in pr['axioms'].values() for a in ax})),
                              'tools/rs2lean.py (translator for Gen/*)', 'harness + driver line protocol (correspondence)'],
             'theorems': pr['theorems'], 'axioms': pr['axioms'],
+            'generated_modules': sorted(gen_deps(prop)),   # Gen/*.lean regenerated from /repo in this run, in the import closure
             'evaluations': total_lines, 'distinct_nontrivial': sigs,
             'rule': spec['rule'],
             'samples': samples or [{'note': 'no correspondence run'}],
